@@ -48,10 +48,15 @@ def make_sample(r, d, k, two_genes, sparse_second=False):
         for _ in range(r.choice([2, 2, 3])):
             a = r.choice(majors)
             copies.append((a, r.choice(list(g.alleles[a].minors))))
-        ref += sim.simulate_reads(g, [("1", "1.001"), ("1", "1.001")], depth=12, name_prefix=f"p{g.name}")
-        if g.name == "GENB" and sparse_second:
-            # a gene the original run rejects for lack of depth: its dump is in the archive all the same
-            smp += sim.simulate_reads(g, copies[:1], depth=1, name_prefix=f"s{g.name}", read_len=60)
+        sparse = g.name == "GENB" and sparse_second
+        ref += sim.simulate_reads(g, [("1", "1.001"), ("1", "1.001")], depth=1 if sparse else 12, name_prefix=f"p{g.name}")
+        if sparse:
+            # a gene the original run rejects for lack of depth (one copy next to a whole-gene deletion, one layer of reads;
+            # the profile is as shallow there, so the depth RATIO is that of an ordinary one-copy sample): its dump is in the
+            # archive all the same, and the replay must reject it too
+            dele_ = g.deletion_allele()
+            cps = copies[:1] + ([(dele_, sorted(g.alleles[dele_].minors)[0])] if dele_ else [])
+            smp += sim.simulate_reads(g, cps, depth=1, name_prefix=f"s{g.name}", read_len=60)
         else:
             smp += sim.simulate_reads(g, copies, depth=[12, 12, 7][:len(copies)], name_prefix=f"s{g.name}", read_len=r.choice([40, 60, 100]))
     # reads that run past the end of the RefSeq window, some with a deletion out there: `_make_coverage` folds what lies
